@@ -479,6 +479,8 @@ public:
     std::lock_guard<std::mutex> lk(g_ev_m);
 #endif
     g_calls.push_back({tid, stream, ord, (uint64_t)(uintptr_t)block});
+    if (g_capture)
+      g_events.push_back({300, tid, (uint64_t)(uintptr_t)block, (long)stream, (long)ord});
     rec_transform(stream, ord, block, block);
     ord++;
   }
